@@ -8,8 +8,10 @@ package xsimrt
 import (
 	"fmt"
 	"reflect"
+	"runtime"
 	"sort"
 	"sync"
+	"time"
 	"unsafe"
 )
 
@@ -766,4 +768,28 @@ func CondBroadcast(c *sync.Cond) {
 		e.q = e.q[:0]
 	}
 	c.Broadcast()
+}
+
+// Sleep is time.Sleep: under the simulator "some time passes" means that the
+// others run (a polling loop `for !ready { time.Sleep(ms) }` must not hold the
+// baton while it sleeps).
+//
+//go:noinline
+func Sleep(d time.Duration) {
+	if ForceSwitch == nil {
+		time.Sleep(d)
+		return
+	}
+	switchNow()
+}
+
+// Gosched is runtime.Gosched.
+//
+//go:noinline
+func Gosched() {
+	if ForceSwitch == nil {
+		runtime.Gosched()
+		return
+	}
+	switchNow()
 }
